@@ -137,6 +137,15 @@ def pair_queues(ctx, rep):
                     owner = it.type_of(plus[0][0][1][1], p)
                     if owner:
                         assoc.setdefault(incs[0][0][0], set()).add((owner, fld))
+                # ... and from the other direction (a dec next to a -1), so that the association does not hang
+                # on a single inc site
+                decs = [(m, e) for m, e in [(q.metric_of(e), e) for e in p.calls() if q.metric_of(e)] if m[0].endswith("_QUEUE") and m[1] == "dec"]
+                minus = [(_queue_delta(e), e) for e in p.calls() if _queue_delta(e) and _queue_delta(e)[0] < 0]
+                if len(decs) == 1 and len(minus) == 1:
+                    fld = minus[0][0][1][2]
+                    owner = it.type_of(minus[0][0][1][1], p)
+                    if owner:
+                        assoc.setdefault(decs[0][0][0], set()).add((owner, fld))
     rep.count("gauged queues", len(assoc), 2)
     gauged = {}
     for g, cs in assoc.items():
